@@ -1207,6 +1207,10 @@ func (h *Handler) servePromQueryMetaDataWithMetricStore(w http.ResponseWriter, r
 }
 
 func (h *Handler) servePromCreateTSDB(w http.ResponseWriter, r *http.Request, user meta2.User) {
+	// Creating a database is for the administrator, as CREATE DATABASE is.
+	if ok := h.checkAuth(w, r, user); !ok {
+		return
+	}
 	tsdb := mux.Vars(r)[TSDB]
 	var err error
 	if err := ValidataTSDB(tsdb); err != nil {
